@@ -220,6 +220,58 @@ theorem dense_cons (den : Terms K) (h0 : coefAt den 0 ≠ 0) :
     List.tail_cons]
   rfl
 
+/-! ### normalisation (`LinearFilter.__init__`) -/
+
+theorem shiftKeys_zero (t : Terms K) : shiftKeys 0 t = t := by
+  simp [shiftKeys]
+
+theorem minKey_shiftKeys (p : Int) (t : Terms K) :
+    minKey (shiftKeys p t) = (minKey t).map (· - p) := by
+  induction t with
+  | nil => rfl
+  | cons kv r ih =>
+    obtain ⟨k, v⟩ := kv
+    simp only [shiftKeys, List.map_cons, minKey] at ih ⊢
+    rw [ih]
+    cases h : minKey r with
+    | none => simp
+    | some k' =>
+      simp only [Option.map_some]
+      by_cases hlt : k' < k
+      · have : k' - p < k - p := by omega
+        simp [hlt, this]
+      · have : ¬ (k' - p < k - p) := by omega
+        simp [hlt, this]
+
+theorem normalise_ok (num den : Terms K) (p : Int) (h : minKey den = some p) :
+    normalise num den = .ok (shiftKeys p num, shiftKeys p den) := by
+  simp only [normalise, h]
+  by_cases hp : p = 0
+  · subst hp; simp [shiftKeys_zero]
+  · simp [hp]
+
+theorem minKey_eq_none (t : Terms K) : minKey t = none ↔ t = [] := by
+  cases t with
+  | nil => simp [minKey]
+  | cons kv r =>
+    obtain ⟨k, v⟩ := kv
+    simp only [minKey]
+    cases minKey r <;> simp
+
+theorem coefAt_shiftKeys (p : Int) (t : Terms K) (k : Int) :
+    coefAt (shiftKeys p t) k = coefAt t (k + p) := by
+  have hp : ((fun kv : Int × K => kv.1 == k) ∘ fun kv : Int × K => (kv.1 - p, kv.2))
+      = (fun kv => kv.1 == k + p) := by
+    funext kv
+    simp only [Function.comp]
+    by_cases h : kv.1 - p = k
+    · have h' : kv.1 = k + p := by omega
+      simp [h, h']
+    · have h' : ¬ (kv.1 = k + p) := by omega
+      simp [h, h']
+  simp only [coefAt, shiftKeys, List.find?_map, hp]
+  cases t.find? (fun kv => kv.1 == k + p) <;> rfl
+
 /-! ### all coefficients zero -/
 
 theorem dot_zero_coeffs (c v : List K) (h : ∀ x ∈ c, x = 0) : dot c v = 0 := by
